@@ -15,7 +15,7 @@ import traceback
 VERIF = os.path.dirname(os.path.dirname(os.path.abspath(__file__)))
 REPO = os.environ.get('VERIF_REPO', '/repo')
 WORK = os.path.join(VERIF, '.work')
-EVID = os.path.join(VERIF, 'evidence')
+EVID = os.environ.get('VERIF_EVIDENCE_DIR') or os.path.join(VERIF, 'evidence')     # seedtest redirects it to a scratch directory
 REPLAYS = os.path.join(EVID, 'replays')
 SPEC = os.path.join(VERIF, 'spec')
 
